@@ -79,3 +79,13 @@ B("c14-benign-declared-test-by-contains-key",
 B("c14-benign-hoisted-sorted-invokes",
   (FSM, "                for inv in state.invoke.sort(&Fsm::invoke_document_order).iterator() {",
         "                let ordered = state.invoke.sort(&Fsm::invoke_document_order);\n                for inv in ordered.iterator() {"))
+# not a refactor: a repair of D21 (forward to every autoforward invoke of the active states); the rule must accept it
+B("c14-repair-d21-forward-from-configuration",
+  (FSM, "                                        if inv.autoforward {\n                                            toForward.push(invokeId.clone());\n                                        }\n", ""),
+  (FSM, "            datamodel.set_event(&externalEvent);\n            for finalizeContentId in toFinalize {",
+        "            {\n                let gd = get_global!(datamodel);\n                for sid in gd.configuration.iterator() {\n"
+        "                    for inv in self.get_state_by_id(*sid).invoke.iterator() {\n                        if inv.autoforward {\n"
+        "                            for (id, session) in &gd.child_sessions {\n                                if session.invoke_doc_id == inv.doc_id {\n"
+        "                                    toForward.push(id.clone());\n                                }\n                            }\n                        }\n"
+        "                    }\n                }\n            }\n"
+        "            datamodel.set_event(&externalEvent);\n            for finalizeContentId in toFinalize {"))
